@@ -98,12 +98,24 @@ Combos == { <<m, s>> \in MaskVs \X SigVs : \/ s = "good"
                                             \/ m \in {"exact", "top", "plus"}
                                             \/ (s = "drop" /\ m \in {"oob", "bit63"}) }
 
-Cases == UNION { { [cs |-> cs, qs |-> qs, t |-> t, cv |-> cv, mv |-> ms[1], sv |-> ms[2]] :
-                     qs \in Stages, t \in Points, cv \in ChainVs(cs), ms \in Combos } : cs \in Stages }
+\* Two-step cases: the same snapshot hash and the same signature bytes are submitted twice to one
+\* node, once with the mask they were made for and once with one signer bit swapped for a
+\* non-signer bit (equal popcount): "after" = altered mask after the genuine one, "before" =
+\* altered mask first.  "none" = the single submission.
+AltVs == {"none", "after", "before"}
+AltMask(mask, n) ==
+    LET inr  == { i \in mask : i < n }
+        free == (0..(n - 1)) \ mask
+    IN  IF inr = {} THEN mask
+        ELSE (mask \ {SetMax(inr)}) \cup {IF free # {} THEN SetMin(free) ELSE n}
+
+Cases == UNION { { [cs |-> cs, qs |-> qs, t |-> t, cv |-> cv, mv |-> ms[1], sv |-> ms[2], av |-> av] :
+                     qs \in Stages, t \in Points, cv \in ChainVs(cs), ms \in Combos, av \in AltVs } : cs \in Stages }
 
 ValidCase(c) == /\ c.cs <= c.qs
                 /\ (c.cv.kind = "pledging-round0" => c.qs = c.cs)
                 /\ (Pairs = "near" => c.qs \in {c.cs, c.cs + 1, LastStage})
+                /\ (c.av # "none" => c.qs = c.cs /\ c.sv = "good" /\ c.mv \in {"exact", "top"})
 
 \* the certificate of case c (shaped at stage cs) as a query against history Hq
 QueryOf(c, Hq) ==
@@ -117,4 +129,10 @@ QueryOf(c, Hq) ==
          sid |-> <<c.cs, c.t, c.cv.chain, c.cv.kind, c.mv, c.sv>>]
 
 Q(c) == QueryOf(c, StageHist(c.qs))
+
+\* the second submission of a two-step case: same signing act, altered mask
+AltQ(c) ==
+    LET q == Q(c)
+        K == Keys(StageHist(c.cs), G0, c.t, c.cv.kind, c.cv.chain)
+    IN  [q EXCEPT !.mask = AltMask(q.mask, Len(K))]
 =============================================================================
